@@ -364,10 +364,57 @@ func schemaStructOf(t types.Type, pkg *types.Package, self *types.Named) (*types
 }
 
 type recvStore struct {
-	field *types.Var
-	val   ssa.Value
-	at    ssa.Instruction
-	fn    *ssa.Function
+	field  *types.Var
+	val    ssa.Value
+	at     ssa.Instruction
+	fn     *ssa.Function
+	fields map[int]bool // schema fields, when already known (struct handed to a helper)
+	guards []*ssa.If    // value-dependent conditions the store is subject to (PERSIST-12)
+}
+
+// valueGuards returns the branches that decide whether `at` executes and whose condition
+// derives from the decoded value (fromSrc), other than the presence test of an optional
+// (pointer-like) field against nil and tests of an error.
+func valueGuards(at ssa.Instruction, fromSrc func(ssa.Value) bool, isSrcField func(ssa.Value) bool) []*ssa.If {
+	var out []*ssa.If
+	b := at.Block()
+	for d := b.Idom(); d != nil; d = d.Idom() {
+		ifi := flow.IfOf(d)
+		if ifi == nil {
+			continue
+		}
+		guarded := false
+		for _, t := range d.Succs {
+			if len(t.Preds) == 1 && t.Dominates(b) {
+				guarded = true
+			}
+		}
+		if !guarded || !fromSrc(ifi.Cond) {
+			continue
+		}
+		// presence test of an optional field: field == nil / field != nil
+		if bo, _, ok := equalEdgeOf(ifi.Cond); ok {
+			presence := false
+			for _, sw := range [][2]ssa.Value{{bo.X, bo.Y}, {bo.Y, bo.X}} {
+				if flow.IsNilConst(sw[1]) {
+					switch sw[0].Type().Underlying().(type) {
+					case *types.Pointer, *types.Interface:
+						if isSrcField(sw[0]) {
+							presence = true
+						}
+					}
+					if types.Identical(sw[0].Type(), errType) {
+						presence = true
+					}
+				}
+			}
+			if presence {
+				continue
+			}
+		}
+		out = append(out, ifi)
+	}
+	return out
 }
 
 func (k *checker) persist1(pt pairType) {
@@ -515,16 +562,45 @@ func (k *checker) persist1(pt pairType) {
 	}
 	recv := pt.fromFn.Params[0]
 	var stores []recvStore
+	srcField := func(y ssa.Value) bool {
+		switch z := y.(type) {
+		case *ssa.FieldAddr:
+			return isSrc(z.X)
+		case *ssa.Field:
+			return isSrc(z.X)
+		}
+		return false
+	}
+	fromSrc := func(v ssa.Value) bool { return derives(v, srcField) }
+	// a value that is exactly one schema field (possibly copied into a local)
+	isSrcFieldVal := func(v ssa.Value) bool {
+		v = flow.StripAll(v)
+		if ld, ok := v.(*ssa.UnOp); ok && ld.Op == token.MUL {
+			if srcField(ld.X) {
+				return true
+			}
+			if cell, isCell := ld.X.(*ssa.Alloc); isCell {
+				for _, r := range ssau.Refs(cell) {
+					if st, isSt := r.(*ssa.Store); isSt && st.Addr == ssa.Value(cell) {
+						if l2, ok2 := flow.StripAll(st.Val).(*ssa.UnOp); ok2 && srcField(l2.X) {
+							return true
+						}
+					}
+				}
+			}
+		}
+		return srcField(v)
+	}
 	ssau.AllInstrs(pt.fromFn, func(in ssa.Instruction) {
 		switch x := in.(type) {
 		case *ssa.Store:
 			if fa, ok := x.Addr.(*ssa.FieldAddr); ok && fa.X == recv {
 				if f := ssau.FieldOf(fa); f != nil {
-					stores = append(stores, recvStore{field: f.Origin(), val: x.Val, at: x, fn: pt.fromFn})
+					stores = append(stores, recvStore{field: f.Origin(), val: x.Val, at: x, fn: pt.fromFn, guards: valueGuards(x, fromSrc, isSrcFieldVal)})
 				}
 			}
 		case *ssa.Call:
-			// pn.SetName(gn.Name): one level of receiver methods
+			// pn.SetName(gn.Name) / pn.apply(gn): one level of receiver methods
 			cc := x.Common()
 			var g *ssa.Function
 			if cal := flow.Callee(x); cal != nil && !cc.IsInvoke() {
@@ -533,6 +609,7 @@ func (k *checker) persist1(pt pairType) {
 			if g == nil || g.Blocks == nil || len(cc.Args) == 0 || cc.Args[0] != recv || len(g.Params) != len(cc.Args) {
 				return
 			}
+			callGuards := valueGuards(x, fromSrc, isSrcFieldVal)
 			ssau.AllInstrs(g, func(gi ssa.Instruction) {
 				s, ok := gi.(*ssa.Store)
 				if !ok {
@@ -544,28 +621,109 @@ func (k *checker) persist1(pt pairType) {
 				}
 				for j := 1; j < len(g.Params); j++ {
 					pj := g.Params[j]
-					if derives(s.Val, func(y ssa.Value) bool { return y == pj }) {
-						if f := ssau.FieldOf(fa); f != nil {
-							stores = append(stores, recvStore{field: f.Origin(), val: cc.Args[j], at: x, fn: pt.fromFn})
-						}
+					if !derives(s.Val, func(y ssa.Value) bool { return y == pj }) {
+						continue
 					}
+					f := ssau.FieldOf(fa)
+					if f == nil {
+						continue
+					}
+					// the parameter inside the helper, and the local it is spilled to
+					isPj := func(v ssa.Value) bool {
+						if v == ssa.Value(pj) {
+							return true
+						}
+						if al, isAl := v.(*ssa.Alloc); isAl {
+							for _, r := range ssau.Refs(al) {
+								if st, isSt := r.(*ssa.Store); isSt && st.Addr == ssa.Value(al) && st.Val == ssa.Value(pj) {
+									return true
+								}
+							}
+						}
+						return false
+					}
+					pjField := func(y ssa.Value) bool {
+						switch z := y.(type) {
+						case *ssa.FieldAddr:
+							return isPj(z.X)
+						case *ssa.Field:
+							return isPj(z.X)
+						}
+						return false
+					}
+					rs := recvStore{field: f.Origin(), val: cc.Args[j], at: x, fn: pt.fromFn}
+					rs.guards = append(rs.guards, callGuards...)
+					tj := pj.Type()
+					if ptr, isPtr := tj.Underlying().(*types.Pointer); isPtr {
+						tj = ptr.Elem()
+					}
+					if _, whole := schemaStructOf(tj, pkg, pt.named); whole {
+						// the whole decoded struct is handed over: the fields are selected inside the helper
+						rs.fields = map[int]bool{}
+						for _, y := range collect(s.Val, pjField) {
+							switch z := y.(type) {
+							case *ssa.FieldAddr:
+								rs.fields[z.Field] = true
+							case *ssa.Field:
+								rs.fields[z.Field] = true
+							}
+						}
+						rs.guards = append(rs.guards, valueGuards(s, func(v ssa.Value) bool { return derives(v, pjField) }, func(v ssa.Value) bool {
+							v = flow.StripAll(v)
+							if ld, isLd := v.(*ssa.UnOp); isLd {
+								return pjField(ld.X)
+							}
+							return pjField(v)
+						})...)
+					} else {
+						// one decoded value is handed over: a condition on the parameter is a condition on that value
+						rs.guards = append(rs.guards, valueGuards(s, func(v ssa.Value) bool {
+							return derives(v, func(y ssa.Value) bool { return y == ssa.Value(pj) })
+						}, func(v ssa.Value) bool { return flow.StripAll(v) == ssa.Value(pj) && isSrcFieldVal(cc.Args[j]) })...)
+					}
+					stores = append(stores, rs)
 				}
 			})
 		}
 	})
 	fFrom := map[int]map[*types.Var]bool{} // schema field -> receiver fields it is restored into
 	restoredRecv := map[*types.Var]bool{}
+	guardsOf := map[int][]*ssa.If{}
+	unguarded := map[int]bool{}
 	for _, s := range stores {
 		if om.deadBy(s.at) != nil {
 			continue
 		}
-		for f := range schemaFieldsIn(s.val) {
+		fs := s.fields
+		if fs == nil {
+			fs = schemaFieldsIn(s.val)
+		}
+		for f := range fs {
 			if fFrom[f] == nil {
 				fFrom[f] = map[*types.Var]bool{}
 			}
 			fFrom[f][s.field] = true
 			restoredRecv[s.field] = true
+			if len(s.guards) == 0 {
+				unguarded[f] = true
+			} else {
+				guardsOf[f] = append(guardsOf[f], s.guards...)
+			}
 		}
+	}
+	// PERSIST-12: what was saved is applied whatever its value
+	for f := 0; f < st.NumFields(); f++ {
+		if len(fFrom[f]) == 0 {
+			continue
+		}
+		name := st.Field(f).Name()
+		construct := fmt.Sprintf("%s.FromJSON#%s", pt.key, name)
+		if unguarded[f] || len(guardsOf[f]) == 0 {
+			k.rep(pt.fromFn.Pos()).hold("PERSIST-12", construct, pt.fromFn.Pos(), "applied under no condition on the decoded value (presence / error tests only)")
+			continue
+		}
+		k.rep(pt.fromFn.Pos()).violate("PERSIST-12", construct, ssau.PosOf(guardsOf[f][0]),
+			"schema field "+name+" is applied to the node only if a condition on the DECODED VALUE holds (a comparison with the zero value / a default, IsZero, len, …): a saved value for which the condition fails — 0, \"\", false, an empty list — is dropped on load and the node falls back to something else, so the reloaded graph is not the saved one. Only presence (optional pointer field == nil) and error tests may guard the store")
 	}
 	repF := k.rep(pt.fromFn.Pos())
 	for f := 0; f < st.NumFields(); f++ {
